@@ -10,6 +10,8 @@
 mod e1;
 mod e1conc;
 mod e1crash;
+mod e1x;
+mod lineage;
 mod driver;
 mod e2;
 mod e3;
